@@ -63,6 +63,8 @@ Expected == CASE pc = "endwarm" -> "end_warmup"
               [] pc = "tune"    -> "tune"
               [] OTHER          -> "no kernel call"
 
+\* the position keys the engine stores (and hands out as tuning history)
+Tracked == (SeqToSet(Hdr.kernel_keys) \cup SeqToSet(Hdr.included)) \ SeqToSet(Hdr.excluded)
 KernelKinds == {"end_warmup", "start_epoch", "transition", "end_epoch", "tune"}
 
 \* lenient mode (Hdr.lenient): the per-call observations are not checked, the trace is only
@@ -110,13 +112,14 @@ TCall ==
                ELSE LET h == History IN
                     /\ ChkL("history_is_this_epochs_stored_chain_length", Ev.hl = Len(h))
                     /\ ChkL("history_is_this_epochs_stored_chain_content",
-                           Len(h) = 0 \/ (/\ Ev.hfirst = h[1][Ev.k]
+                           \* (only the tracked positions are in the history)
+                           Len(h) = 0 \/ Hdr.kernel_keys[Ev.k] \notin Tracked
+                                      \/ (/\ Ev.hfirst = h[1][Ev.k]
                                           /\ Ev.hlast = h[Len(h)][Ev.k]))
             /\ Tune(Ev.k)
   /\ UNCHANGED params /\ Step
 
 \* --- what SamplingResults stored -------------------------------------------------
-Tracked == (SeqToSet(Hdr.kernel_keys) \cup SeqToSet(Hdr.included)) \ SeqToSet(Hdr.excluded)
 KernelOfKey(name) == CHOOSE i \in Kernels : Hdr.kernel_keys[i] = name
 
 RECURSIVE PostChain(_)
